@@ -33,6 +33,8 @@ def run(ctx):
         box.put("syntax.tjp", b'project p "P" 2025-01-06 +1w {\n task a "A" { effort }\n')
         box.put("exists.json", b"{}")
         box.put("binary.tjp", b'project p "P\xff\xfe" 2025-01-06 +1w {}\n')
+        oddname = os.fsdecode(b"caf\xe9 plan.tjp")          # a file name that is not valid UTF-8
+        box.put(oddname, texts[0])
         box.put("escape.tjp", texts[0] + b'\ntaskreport esc "../escaped_by_name" { formats json columns id }\n')
         # report definitions the library ends with a fatal error (MessageHandler.error -> sys.exit)
         box.put("anon.tjp", texts[0] + b'\ntaskreport { formats json columns id }\n')
@@ -76,6 +78,8 @@ def run(ctx):
                   ("fatal anonymous report", ["report", "anon.tjp"], None, None),
                   ("fatal report name", ["report", "--csv", "badname.tjp"], None, None),
                   ("fatal report name stdin", ["report"], texts[0] + b'\ntaskreport q "what?" { formats json columns id }\n', None),
+                  ("undecodable file name", ["report", oddname], None, None),
+                  ("undecodable file name csv quiet", ["--quiet", "report", "--csv", oddname], None, None),
                   ("output new file", ["report", "-o", "out_new.json", names[0]], None, None),
                   ("output forced", ["report", "--force", "-o", "exists.json", names[0]], None, None),
                   # -o names a file that does not exist yet and the run fails: nothing may appear in the working directory
